@@ -184,8 +184,9 @@ type phase struct {
 	leakSeen bool
 	// while several woken requesters run, the oracle (which needs the mutex for its reference
 	// snapshot) is postponed until they have all settled; the state does not change meanwhile
-	deferOracle bool
-	deferred    []func()
+	deferOracle     bool
+	deferred        []func()
+	lastWriterPoint string
 }
 
 func (p *phase) snapRefs() (snapshot, []*aplaylist, error) {
@@ -368,6 +369,10 @@ func (p *phase) settle(woken []int, writerPoint string, when string) error {
 		wr := p.c.await(watch, watchdog)
 		switch {
 		case wr.ev != nil && wr.ev.actor == -1:
+			if strings.HasSuffix(writerPoint, "*") && strings.HasPrefix(wr.ev.point, strings.TrimSuffix(writerPoint, "*")) {
+				writerPoint = wr.ev.point
+				p.lastWriterPoint = wr.ev.point
+			}
 			if !needWriter || wr.ev.point != writerPoint {
 				return fmt.Errorf("writer: unexpected %q (wanted %q)", wr.ev.point, writerPoint)
 			}
@@ -490,7 +495,8 @@ func startPhase(sc scenario, work string, res *result, noCloseHook bool) (*phase
 // ---------------- (B) forced schedules around rotations ----------------
 // slot of a requester: where its two macro steps (R1 = up to the lookup hook, R2 = the rest)
 // fall relative to the writer's W1 (Lock; rotate; Unlock) and W2 (Broadcast) of the first frame:
-//   0: R1 R2 W1 W2   1: R1 W1 R2 W2   2: R1 W1 W2 R2   3: W1 R1 R2 W2   4: W1 R1 W2 R2   5: W1 W2 R1 R2
+//
+//	0: R1 R2 W1 W2   1: R1 W1 R2 W2   2: R1 W1 W2 R2   3: W1 R1 R2 W2   4: W1 R1 W2 R2   5: W1 W2 R1 R2
 func runSched(sc scenario, work string) (res result) {
 	p, pre, err := startPhase(sc, work, &res, true)
 	if err != nil {
@@ -607,6 +613,120 @@ func runEvict(sc scenario, work string) (res result) {
 	res.coq = p.caseCoq(pre, false, "None")
 	res.nontriv = true
 	res.tags = append(res.tags, "evict")
+	close(p.cmds)
+	drain(p.d, p.c)
+	return
+}
+
+// ---------------- the writer parked INSIDE a part finalize ----------------
+// The writer has taken the muxer mutex and is marshalling the part into storage (parked in
+// storage.Part.Writer()); the part is not yet published and its URI is still advertised as the
+// preload hint. A GET of that URI - dispatched by muxerServer.handle under its own table lock,
+// not the muxer mutex - must block (in the hint closure, on the muxer mutex) and then return
+// exactly the part's bytes; it may not be answered at once.
+// Slots[0]: 0 = the table lookup happened before the writer started, 1 = inside the window.
+func runFinalize(sc scenario, work string) (res result) {
+	d, err := newDriver(sc.Cfg, work)
+	if err != nil {
+		res.infraErr = err.Error()
+		return
+	}
+	defer cleanup(d)
+	gate := d.wrapStorage() // before any file exists
+	c := newCtl(d.m)
+	pre, err := replayHistory(d, c, sc.History)
+	if err != nil {
+		res.infraErr = err.Error()
+		return
+	}
+	p := &phase{sc: sc, d: d, c: c, sleeping: map[int]bool{}, res: &res}
+	p.w, p.cmds = c.spawnWriter(true)
+	fail := func(err error) bool {
+		if err != nil && res.infraErr == "" {
+			res.infraErr = err.Error()
+		}
+		return err != nil
+	}
+	i := p.addReq(sc.Reqs[0])
+	rq := sc.Reqs[0]
+	if sc.Slots[0] == 0 && fail(p.r1(i)) {
+		return
+	}
+	// frames until one of them starts a rotation: the writer parks inside the part finalize
+	before, err := d.snap()
+	if fail(err) {
+		return
+	}
+	gate.arm(sc.GateAt)
+	parked := false
+	for _, f := range sc.Frames {
+		idr := f
+		p.cmds <- func() { p.d.writeFrame(idr) }
+		wr := p.c.await(nil, watchdog)
+		if wr.ev == nil || wr.ev.actor != -1 {
+			fail(fmt.Errorf("finalize: writer: %+v", wr))
+			return
+		}
+		if wr.ev.point == "storage:part-writer" {
+			parked = true
+			break
+		}
+		if wr.ev.point != "returned" {
+			fail(fmt.Errorf("finalize: writer reached %q before any part finalize", wr.ev.point))
+			return
+		}
+	}
+	if !parked {
+		fail(fmt.Errorf("finalize: no frame of the scenario finalized a part"))
+		return
+	}
+	p.items = append(p.items, "SW 1%nat") // mutex.Lock() of rotateParts / rotateSegments
+	if sc.Slots[0] == 1 && fail(p.r1(i)) {
+		return
+	}
+	if fail(p.r2(i, "while the writer is inside the part's finalize")) {
+		return
+	}
+	desc := fmt.Sprintf("GET part %d of stream %d (the advertised preload hint) while the muxer is finalizing that rotation's parts", rq.ID, rq.Stream)
+	if o := &p.out[i]; o.Class == "done" {
+		// answered although the writer still holds the muxer mutex: only acceptable if it is
+		// exactly the (already published) part
+		if !(o.Status == 200 && o.Wrote && o.PartID != nil && *o.PartID == rq.ID) {
+			res.fail(sc, "C06:preload-hint:answered-at-once-while-part-is-being-finalized", desc+fmt.Sprintf(
+				": answered immediately with status %d and %d body bytes instead of blocking until the part is published", o.Status, len(o.Body)))
+		}
+	} else if o.Class != "lockblocked" {
+		fail(fmt.Errorf("finalize: requester is %s while the writer holds the mutex", o.Class))
+		return
+	}
+	// the writer goes on: finalize, publish, Unlock (hook), then the requester gets the mutex
+	var pend []int
+	if p.out[i].Class == "lockblocked" {
+		pend = []int{i} // settle() adds its SRun item when it reports
+	}
+	p.items = append(p.items, "SW 2%nat") // rotate*Inner, mutex.Unlock()
+	p.c.release(p.w)
+	p.progress++
+	if fail(p.settle(pend, "rotate*", "after the part was published")) {
+		return
+	}
+	after, err := d.snap()
+	if fail(err) {
+		return
+	}
+	p.prog = append(p.prog, observeOps(before, after, []string{p.lastWriterPoint})...)
+	p.c.release(p.w)
+	p.items = append(p.items, "SW 1%nat")
+	if fail(p.settle(nil, "returned", "")) {
+		return
+	}
+	if o := &p.out[i]; !(o.Class == "done" && o.Status == 200 && o.Wrote && o.PartID != nil && *o.PartID == rq.ID) &&
+		len(res.fails) == 0 {
+		res.fail(sc, "C06:preload-hint:not-the-part-after-publication", desc+fmt.Sprintf(": after the part was published the request is %s (status %d, %d bytes)", o.Class, o.Status, len(o.Body)))
+	}
+	res.coq = p.caseCoq(pre, false, "None")
+	res.nontriv = true
+	res.tags = append(res.tags, "finalize", fmt.Sprintf("finalize:lookup-in-window=%v", sc.Slots[0] == 1), "finalize:"+p.lastWriterPoint)
 	close(p.cmds)
 	drain(p.d, p.c)
 	return
